@@ -497,8 +497,15 @@ class Repo:
                     if isinstance(n_, ast.Attribute) and isinstance(n_.ctx, (ast.Store, ast.Del)):
                         stored.add(n_.attr)
             cache = {}
+            # names that objects from outside the package answer to as well (files, sockets, queues, threads, containers, pydicom
+            # data sets): a call of one of these on an unknown receiver is not known to be the package's method
+            import io as _io, socket as _socket, threading as _thr
+            foreign = set(dir(_io.BytesIO)) | set(dir(_socket.socket)) | set(dir(_thr.Thread)) | set(dir(dict)) | set(dir(list)) \
+                | set(dir(set)) | set(dir(str)) | set(dir(bytes)) | {'put', 'get', 'task_done', 'acquire', 'release', 'wait', 'notify',
+                                                                       'set', 'is_set', 'save_as', 'shutdown', 'server_close'}
             for n_, lst in defs.items():
-                if len(lst) == 1 and lst[0] is not None and n_ not in stored and lst[0].kind == 'method' and self.is_helper(lst[0]):
+                if len(lst) == 1 and lst[0] is not None and n_ not in stored and lst[0].kind == 'method' and self.is_helper(lst[0]) \
+                        and n_ not in foreign:
                     cache[n_] = lst[0]
             self._unique_methods = cache
         return cache.get(name)
